@@ -169,5 +169,6 @@ func TestC06NoOverdraft(t *testing.T) {
 }
 
 func TestC06Volume(t *testing.T) {
-	h.Run(t, "C06", "volume", func(t *rapid.T) Hist { return genVolumeHist(t, false) }, volumeOf(judgeC06, false))
+	rec = h.NewRecorder("C06", "volume")
+	h.RunWith(t, rec, func(t *rapid.T) Hist { return genVolumeHist(t, false) }, volumeOf(judgeC06, false))
 }
